@@ -285,7 +285,10 @@ func (p *poller) readWriteLoop() {
 							if asyncReadEnabled {
 								c.AsyncRead()
 							} else {
-								for i := 0; i < g.MaxConnReadTimesPerEventLoop; i++ {
+								// when the peer has hung up this is the last event for the
+								// fd, read all it has sent before the Conn is closed below.
+								hangup := ev.Events&epollEventsError != 0
+								for i := 0; i < g.MaxConnReadTimesPerEventLoop || hangup; i++ {
 									pbuf := g.borrow(c)
 									bufLen := len(*pbuf)
 									rc, n, err := c.ReadAndGetConn(pbuf)
